@@ -13,7 +13,10 @@ use tokio::sync::mpsc::{UnboundedReceiver, unbounded_channel};
 use crate::control::ServerRef;
 use crate::events::EventProcessor;
 use crate::gateway::LostWorkerReason;
-use crate::internal::messages::worker::{FromWorkerMessage, ToWorkerMessage};
+use crate::internal::messages::worker::{
+    FromWorkerMessage, NewWorkerMsg, ToWorkerMessage, WorkerRegistrationResponse,
+};
+use crate::internal::server::worker::DEFAULT_WORKER_OVERVIEW_INTERVAL;
 use crate::internal::scheduler::{SchedulerConfig, SchedulerResult, run_scheduling};
 use crate::internal::server::comm::{Comm, CommSenderRef};
 use crate::internal::server::core::CoreRef;
@@ -70,7 +73,11 @@ impl VerifServer {
     }
 
     /// Mirrors the registration part of `worker_rpc_loop`.
-    pub fn add_worker(&mut self, mut configuration: WorkerConfiguration, now: Instant) -> WorkerId {
+    pub fn add_worker(
+        &mut self,
+        mut configuration: WorkerConfiguration,
+        now: Instant,
+    ) -> (WorkerId, WorkerRegistrationResponse) {
         let worker_id = self.core_ref.get_mut().new_worker_id();
         sync_worker_configuration(&mut configuration, *self.core_ref.get().idle_timeout());
         let (queue_sender, queue_receiver) = unbounded_channel::<Bytes>();
@@ -82,9 +89,38 @@ impl VerifServer {
             let worker = Worker::new(worker_id, configuration, &core.create_resource_map(), now);
             on_new_worker(&mut core, &mut *self.comm_ref.get_mut(), worker);
         }
+        let message: WorkerRegistrationResponse = {
+            let core = self.core_ref.get();
+            WorkerRegistrationResponse {
+                worker_id,
+                resource_names: core.create_resource_map().into_vec(),
+                resource_rq_map: core.get_resource_rq_map().clone(),
+                other_workers: core
+                    .get_workers()
+                    .filter_map(|w| {
+                        if w.id != worker_id {
+                            Some(NewWorkerMsg {
+                                worker_id: w.id(),
+                                address: w.configuration().listen_address.clone(),
+                                resources: w.resources.to_transport(),
+                            })
+                        } else {
+                            None
+                        }
+                    })
+                    .collect(),
+                server_idle_timeout: *core.idle_timeout(),
+                server_uid: core.server_uid().to_string(),
+                worker_overview_interval_override: if core.worker_overview_listeners() > 0 {
+                    Some(DEFAULT_WORKER_OVERVIEW_INTERVAL)
+                } else {
+                    None
+                },
+            }
+        };
         self.comm_ref.get_mut().add_worker(worker_id, queue_sender);
         self.receivers.insert(worker_id, queue_receiver);
-        worker_id
+        (worker_id, message)
     }
 
     /// Mirrors one iteration of `worker_receive_loop` (messages that only touch heartbeats /
@@ -164,6 +200,13 @@ impl VerifServer {
 
     pub fn dump(&self, now: Instant) -> serde_json::Value {
         self.core_ref.get().dump(now)
+    }
+
+    /// Keys of the core task map, sorted.
+    pub fn task_ids(&self) -> Vec<crate::TaskId> {
+        let mut ids: Vec<_> = self.core_ref.get().task_map().task_ids().collect();
+        ids.sort();
+        ids
     }
 
     pub fn worker_counter(&self) -> u32 {
